@@ -190,6 +190,19 @@ def check(case):
                     break
             if ft != tt:
                 nontrivial = True
+        # (c') both files misleadingly named, both types given explicitly (every combination of the two spellings)
+        if case['fmis'] != cli.EXT[ft] and case['tmis'] != cli.EXT[tt]:
+            pma, pmb = mk(da, case['fmis'], 'Xf'), mk(db, case['tmis'], 'Xt')
+            for fs in ([f'--from-{ft}'], ['--from-mime', FT[ft].default_mimetype]):
+                for ts in ([f'--to-{tt}'], ['--to-mime', FT[tt].default_mimetype]):
+                    r = cli.run_main([pma, pmb] + ba + fs + ts)
+                    if not same(r):
+                        out.fail('explicit-types-not-used-together', f"{ft} bytes as *.{case['fmis']} and {tt} bytes as *.{case['tmis']} with "
+                                                                     f"{' '.join(fs + ts)}: {describe(r)}; stderr={r.err[-120:]!r}")
+                        break
+                else:
+                    continue
+                break
         # (d) the same file in both positions, the second one read as another type: command line vs library
         other = next(t for t in TYPES if t != ft)
         if ft != 'yaml' or True:
